@@ -152,6 +152,15 @@ fn check_digests(
     Ok(())
 }
 
+/// The digest algorithm an SD-JWT declares in `_sd_alg`; sha-256 when the claim is absent, which is
+/// the default the specification prescribes.
+pub(crate) fn declared_hash_alg(claims: &Value) -> Result<HashAlgorithm, Error> {
+    match claims.get("_sd_alg") {
+        None => Ok(HashAlgorithm::SHA256),
+        Some(alg) => HashAlgorithm::try_from(alg.as_str().unwrap_or("")),
+    }
+}
+
 pub(crate) fn sd_contains_digest(sd: &Value, digest: &str) -> Result<bool, Error> {
     let sd_array = sd
         .as_array()
